@@ -42,19 +42,7 @@ fn tsig_window(tsig: &VpTsigTimes) -> (r: Range<u64>)
 //%end
 #[verifier::external_body]
 pub fn vp_range_contains(r: &Range<u64>, item: &u64) -> (b: bool) ensures b == (r.start <= *item && *item < r.end) { r.contains(item) }
-fn authorized_tsig_time_check(range: Range<u64>, now: u64) -> (r: (Result<(), ResponseCode>, Option<TsigError>))
-    ensures
-        // C13: "takes effect only if ... whose time is within fudge of the server clock"
-        r.0 is Ok ==> range.start <= now && now <= range.end,
-        r.0 is Err ==> r.1 == Some(TsigError::BadTime),
-        r.0 is Ok ==> r.1 is None,
-{
-//%expr crates/server/src/store/sqlite/mod.rs :: impl<P: RuntimeProvider + Send + Sync> SqliteZoneHandler<P> :: authorized_tsig :: "let mut error = None;" ..< "( response, TSigResponseContext::new"
-//%sub? "range.contains(&now)" => "vp_range_contains(&range, &now)" # R-shim: core::ops::Range::contains
-//%mutant time_check_dropped "response = Err(ResponseCode::NotAuth);" => ""
-//%end
-    (response, error)
-}
+// (the time check of authorized_tsig was first extracted as a statement range; it is now covered by the whole function below)
 
 // ---- the Error field of the TSIG RDATA is decoded losslessly (so an edited Error field changes the
 //      re-emitted MAC input and the MAC check fails) ----
@@ -155,6 +143,7 @@ impl SqliteZoneHandler {
 //%sub1 "tsig.data.mac.clone()" => "vp_vec_clone(&tsig.data.mac)" # R-shim: Vec::clone
 //%closure "|tsigner|"
 |tsigner: &&TSigner| -> (b: bool) ensures b == (tsigner.name.id == tsig.name.id)
+//%mutant time_check_dropped "response = Err(ResponseCode::NotAuth);" => ""
 //%mutant time_window_ignored "if !range.contains(&now)" => "if false"
 //%mutant bad_signature_reply_signed "TSigResponseContext::bad_signature(req_id, now, tsigner.clone())" => "TSigResponseContext::new(req_id, now, tsigner.clone(), vp_vec_clone(&tsig.data.mac), None)"
 //%contract
@@ -165,7 +154,8 @@ impl SqliteZoneHandler {
                 && mac_ok(self.tsig_signers@[i], request.raw@)
                 && window_of(self.tsig_signers@[i], request.raw@).start <= now < window_of(self.tsig_signers@[i], request.raw@).end,
             // the reply is signed with a key only if the request's MAC verified under that key (no signing oracle)
-            r.1 matches TSigResponseContext::Signed { signer, error, .. } ==> mac_ok(signer, request.raw@) && (r.0 is Ok <==> error is None),
+            r.1 matches TSigResponseContext::Signed { signer, error, .. } ==> mac_ok(signer, request.raw@) && (r.0 is Ok <==> error is None)
+                && (r.0 is Err ==> error == Some(TsigError::BadTime)),
             // every reply carries the request id
             match r.1 { TSigResponseContext::UnknownKey { id, .. } => id == request.id, TSigResponseContext::BadSignature { id, .. } => id == request.id, TSigResponseContext::Signed { id, .. } => id == request.id },
 //%end
